@@ -64,8 +64,8 @@ def oracle (pfx : String) (base total : Nat) (obs : List Obs) : Option String :=
       if isEnd o.word then none
       else if o.pos ≠ base + o.consumed then
         let cls := if (o.word.startsWith "F:" || o.word.startsWith "O:") && o.consumed == total
-          then "item-value-truncated-position" else "position-not-consumed"
-        some s!"PROP-FAIL class={pfx}{cls} token={(o.word.take 40).toString} position={o.pos} base={base} consumed={o.consumed}"
+          then "item-value-truncated-position" else pfx ++ "position-not-consumed"
+        some s!"PROP-FAIL class={cls} reader={if pfx.isEmpty then "eager" else "lazy"} token={(o.word.take 40).toString} position={o.pos} base={base} consumed={o.consumed}"
       else
         let bad := match prev with
           | some p => match headerLen p.word with
